@@ -137,6 +137,12 @@ func c01ExtraSpecs(c *core.Check, rng *rand.Rand) ([]*aspec.ASpec, []string) {
 		}
 		add(nm, a)
 	}
+	// names of the spec file (and with them of the served spec): no extension, a leading dot, a trailing dot, several dots
+	for _, n := range []string{"spec", ".hidden", "openapi.", "api.v1.yml", "v1"} {
+		a := kitchenSpec()
+		a.SpecName = n
+		add("specname:"+n, a)
+	}
 	{
 		a, op := mk()
 		a.Schemes = []aspec.Scheme{{Key: "Q", Kind: "apiKeyQuery", Name: "key"}}
